@@ -171,9 +171,9 @@ def run(c):
     MH = "<grin_p2p::msg::MsgHeaderWrapper as grin_core::ser::Readable>::read"
     c.r2("msg-limit-known", MH, ops={"Gt"}, lhs=["call:Reader::read_u64"], rhs=["call:msg::max_msg_size", "op:MulWithOverflow", "const:4"], err="TooLargeReadErr", dominate=False,
          desc="MsgHeaderWrapper::read: msg_len above the per-type limit is refused")
-    c.r2("msg-limit-unknown", MH, ops={"Gt"}, lhs=["call:Reader::read_u64"], rhs=["call:msg::default_max_msg_size", "op:MulWithOverflow", "const:4"], err="TooLargeReadErr", dominate=False,
+    c.r2("msg-limit-unknown", MH, ops={"Gt"}, lhs=["call:Reader::read_u64"], rhs=["re:^call:msg::(default_max_msg_size|max_block_size)$", "op:MulWithOverflow", "const:4"], err="TooLargeReadErr", dominate=False,
          desc="MsgHeaderWrapper::read: msg_len of an unknown type above the default limit is refused")
-    c.r2("msg-limit-dominates", MH, ops={"Gt"}, lhs=["call:Reader::read_u64"], rhs=["re:^call:msg::(default_)?max_msg_size$", "op:MulWithOverflow", "const:4"], err="TooLargeReadErr", min_guards=2,
+    c.r2("msg-limit-dominates", MH, ops={"Gt"}, lhs=["call:Reader::read_u64"], rhs=["re:^call:msg::(default_max_msg_size|max_msg_size|max_block_size)$", "op:MulWithOverflow", "const:4"], err="TooLargeReadErr", min_guards=2,
          desc="MsgHeaderWrapper::read: every ok exit passed the false edge of a `msg_len > limit` comparison")
     # a workspace iterator that reports a size hint makes `collect()` pre-allocate from it: on the decoder paths the element count comes off
     # the wire (read_multi: up to 1_000_000), so no workspace `size_hint`/`len` override may be reachable (positive control: the walk passes
